@@ -79,6 +79,15 @@ def run(v, prefixes=("C08",), pid="C08"):
                 gset = set(g)
                 others = [o for o in others if not any(_comparable(ser, o, x) for x in gset)]
             events.append(cp.compact_event(cp.permuted(g + others, rng, dup=(pid == "C09"))))
+    # cascades through every level: a complete partition with a spine down to a deep level (canonical form: the world
+    # cell), the same with one hole (canonical form: the siblings along the spine), and with one face missing
+    for depth in ((29, 28, 17, 3) if quick else (29, 28, 27, 26, 25, 20, 17, 12, 9, 5, 3, 2, 1)):
+        sp = cp.spine_antichain(p, rng, depth)
+        events.append(cp.compact_event(cp.permuted(sp, rng, dup=(pid == "C09"))))
+        hole = list(sp)
+        hole.pop(rng.randrange(len(hole)))
+        events.append(cp.compact_event(cp.permuted(hole, rng, dup=(pid == "C09"))))
+        events.append(cp.compact_event(cp.permuted(sp[:-1], rng, dup=False)))      # the deepest cell missing
     for k in range(60 if quick else 1200):
         for run in cp.stride_runs(p, rng):
             events.append(cp.compact_event(cp.permuted(run, rng, dup=False)))
